@@ -114,7 +114,7 @@ def ref_run(block, tabs, max_events=100000):
     return o.events, show_ret(last), show_ret(last_step)
 
 
-def build_workchain(block, tabs, name='GenChain', alias=False):
+def build_workchain(block, tabs, name='GenChain', alias=False, required_output=False):
     """A real plumpy WorkChain subclass whose outline is `block`; step/predicate methods consult the oracle tables."""
     import plumpy
     from plumpy.workchains import if_, while_, return_
@@ -211,6 +211,9 @@ def build_workchain(block, tabs, name='GenChain', alias=False):
     def define(cls, spec):
         super(klass, cls).define(spec)
         spec.outline(*conv_block(block, cls))
+        if required_output:
+            # a declared output that no step ever emits: the chain then finishes UNSUCCESSFUL - with the same result all the same
+            spec.output('summary', valid_type=int, required=True)
 
     ns['define'] = classmethod(define)
 
